@@ -5,8 +5,8 @@ import (
 	"sort"
 
 	"github.com/ontio/ontology/common"
-	gov "github.com/ontio/ontology/smartcontract/service/native/governance"
 	"github.com/ontio/ontology/smartcontract/event"
+	gov "github.com/ontio/ontology/smartcontract/service/native/governance"
 	"verifharness/lib/vf"
 )
 
@@ -49,11 +49,12 @@ func transfers(n []*event.NotifyEventInfo) (out []Transfer, bad string) {
 
 // Hist is one running history with the oracles' private state.
 type Hist struct {
-	R     *vf.Run
-	W     *World
-	Tag   string
-	Prop  string // "C10" or "C11": which oracle reports violations
-	Lines []string
+	R      *vf.Run
+	W      *World
+	Tag    string
+	Prop   string // "C10" or "C11": which oracle reports violations
+	Lines  []string
+	LastTx string // hex of the transaction executed last (raw bytes: replays without the generator)
 
 	lastGap   int64                     // ONT balance - recorded stakes after the previous operation
 	deposited map[common.Address]uint64 // cumulative ONT moved addr -> governance
@@ -70,7 +71,8 @@ func NewHist(r *vf.Run, w *World, tag, prop string) *Hist {
 }
 
 func (h *Hist) witness(extra map[string]interface{}) map[string]interface{} {
-	m := map[string]interface{}{"history": h.Tag, "world": h.W.Tag, "K": h.W.K, "genesis_init_pos": h.W.InitPos, "ops": append([]string{}, h.Lines...)}
+	m := map[string]interface{}{"history": h.Tag, "world": h.W.Tag, "K": h.W.K, "genesis_init_pos": h.W.InitPos, "genesis_max_block_change_view": h.W.MBCV,
+		"accounts": "chain.DetAccount(world + \"/\" + name); node keys chain.DetAccount(world + \"/node<i>\")", "ops": append([]string{}, h.Lines...), "last_tx": h.LastTx}
 	for k, v := range extra {
 		m[k] = v
 	}
